@@ -152,6 +152,12 @@ def gen_cases(rnd, tier):
             i = rnd.choice([i for i in range(k) if idx[i] < len(msgs[i])])
             order.append(msgs[i][idx[i]])
             idx[i] += 1
+        # sometimes an attempt was abandoned before: the first blocks of one of the messages came once already (a later block was
+        # refused and the sender starts over with the same system bytes)
+        multi = [m for m in msgs if len(m) > 1]
+        if multi and rnd.random() < 0.35:
+            m = rnd.choice(multi)
+            order = m[: rnd.randint(1, len(m) - 1)] + order
         # sometimes the same system id is reused by a second message after the first completed
         if rnd.random() < 0.3:
             order += split_py(dict(msgs[0][0][0], stream=5), body_of(300, rnd))
